@@ -287,24 +287,6 @@ theorem rendition_attrsOK {r : Rendition} (h : WFRendition r) :
 
 theorem isDig_eq (c : Char) : isDig c = isDigit c := rfl
 
-theorem natToDigits_length (k : Nat) : ∀ n, n < 10 ^ (k + 1) → (natToDigits n).length ≤ k + 1 := by
-  induction k with
-  | zero =>
-    intro n hn
-    have : n < 10 := by simpa using hn
-    rw [natToDigits_lt this]; simp
-  | succ k ih =>
-    intro n hn
-    by_cases h : n < 10
-    · rw [natToDigits_lt h]; simp
-    · rw [natToDigits_ge h]
-      have : n / 10 < 10 ^ (k + 1) := by
-        rw [Nat.div_lt_iff_lt_mul (by decide)]
-        calc n < 10 ^ (k + 1 + 1) := hn
-          _ = 10 ^ (k + 1) * 10 := by rw [Nat.pow_succ]
-      have := ih (n / 10) this
-      simp; omega
-
 theorem natToDigits_all_isDig (n : Nat) : (natToDigits n).all isDig = true := natToDigits_all_digit n
 
 theorem digits_natToDigits {n : Nat} (h : n < 10 ^ 20) : digits (natToDigits n) 20 = true := by
